@@ -35,11 +35,11 @@ def gen_hists(ctx, num, depth, seed):
     return out
 
 
-def make_workload(ctx, wid, hist, cfg, mode):
+def make_workload(ctx, wid, hist, cfg, mode, par=False):
     ops, n = [], 0
     for h in hist:
         if h["op"] == "Write":
-            size = h["n"] if mode == "txn" else 1
+            size = h["n"] if (mode == "txn" or par) else 1
             ks = ctx.rng.sample(KEYS, min(size, len(KEYS)))
             ws = []
             for k in ks:
@@ -48,7 +48,7 @@ def make_workload(ctx, wid, hist, cfg, mode):
             ops.append({"op": "Write", "w": ws})
         elif h["op"] in OPMAP:
             ops.append(dict(OPMAP[h["op"]]))
-    return {"id": wid, "cfg": cfg, "mode": mode, "keys": KEYS, "ops": ops}
+    return {"id": wid, "cfg": cfg, "mode": mode, "par": par, "keys": KEYS, "ops": ops}
 
 
 def option_sets(pid):
@@ -63,12 +63,29 @@ def option_sets(pid):
     return out
 
 
+RARE = re.compile(r"vlog|MANIFEST|CURRENT|^remove|^rename|truncate|mkdir|crash\.")
+
+
+def pick_points(ctx, names, cap):
+    """All crash points when they fit; otherwise every point at a rare operation (value-log files,
+    manifest, CURRENT, removals, renames, truncations, the crash.* yield points) plus a seeded sample
+    of the common ones (WAL / SST writes and syncs)."""
+    n = len(names)
+    if n <= cap:
+        return list(range(1, n + 1))
+    rare = [i + 1 for i, nm in enumerate(names) if RARE.search(nm)]
+    if len(rare) > cap * 2 // 3:
+        rare = sorted(ctx.rng.sample(rare, cap * 2 // 3))
+    rest = [i for i in range(1, n + 1) if i not in set(rare)]
+    return sorted(set(rare) | set(ctx.rng.sample(rest, min(len(rest), cap - len(rare)))))
+
+
 def run_point(binp, base, wl_path, n):
     d = os.path.join(base, "p%d" % n)
     os.makedirs(d)
     tr, rec = os.path.join(d, "trace.ndjson"), os.path.join(d, "rec.json")
     db = os.path.join(d, "db"); os.makedirs(db)
-    p = subprocess.run([binp, "work", "-dir", db, "-wl", wl_path, "-crashat", str(n), "-trace", tr],
+    p = subprocess.run([binp, "work", "-dir", db, "-wl", wl_path, "-crashat", str(n), "-trace", tr] + (["-list"] if n == 0 else []),
                        stdout=subprocess.DEVNULL, stderr=subprocess.PIPE, text=True, timeout=120)
     if p.returncode not in (0, 77):
         return {"n": n, "error": "work exit %d: %s" % (p.returncode, p.stderr[-800:])}
@@ -86,11 +103,14 @@ def run_point(binp, base, wl_path, n):
 
 def to_trace(pid, wl, pt):
     t = [{"e": "Cfg", "prop": pid, "sync": bool(wl["cfg"].get("sync")), "keys": wl["keys"]}]
+    nb, pos = 0, {}
     for ev in pt["events"]:
         if ev["e"] == "Accept":
+            nb += 1
+            pos[(ev["i"], ev.get("j", 0))] = nb
             t.append({"e": "Accept", "w": ev["w"]})
         elif ev["e"] == "Ack":
-            t.append({"e": "Ack", "ok": ev["ok"]})
+            t.append({"e": "Ack", "ok": ev["ok"], "b": pos[(ev["i"], ev.get("j", 0))]})
     rec = pt["rec"]
     blank = {k: "ERR:not opened" for k in wl["keys"]}
     t.append({"e": "Recovered", "open": bool(rec.get("open")), "dump": rec.get("dump1") or blank})
@@ -148,12 +168,17 @@ def run(ctx):
     hists = gen_hists(ctx, 40 if quick else 300, 10, ctx.seed * 100 + 1) + gen_hists(ctx, 20 if quick else 200, 16, ctx.seed * 100 + 2)
     ctx.rng.shuffle(hists)
     opts = option_sets(pid)
-    nwl = 4 if quick else 40
+    nwl = 6 if quick else 40
     wls = []
     for i, h in enumerate(hists[:nwl]):
         cfg = opts[(i + ctx.seed) % len(opts)]
         mode = "txn" if i % 3 != 2 else "plain"
-        wls.append(make_workload(ctx, i, h, cfg, mode))
+        # C09 speaks about acknowledged writes only, so its plain workloads issue the writes of one
+        # operation concurrently (coalesced commit batches); C10's prefix order needs a single client
+        par = pid == "C09" and i % 2 == 1
+        if par:
+            mode = "plain"
+        wls.append(make_workload(ctx, i, h, cfg, mode, par=par))
     # recorded finding / regression workloads stay in the set
     for rp in json.load(open(os.path.join(VERIF, "findings", "durability_replays.json"))):
         if pid in rp["properties"]:
@@ -171,9 +196,9 @@ def run(ctx):
             raise Undecided("workload %d does not run: %s" % (wl["id"], full["error"]))
         total = [e for e in full["events"] if e["e"] == "Done"][0]["points"]
         counts[wl["id"]] = total
-        pts = list(range(1, total + 1))
-        if len(pts) > per_wl_cap:
-            pts = sorted(ctx.rng.sample(pts, per_wl_cap))
+        names = [e["at"] for e in full["events"] if e["e"] == "P"]
+        full["events"] = [e for e in full["events"] if e["e"] != "P"]
+        pts = pick_points(ctx, names, per_wl_cap) if len(names) == total else list(range(1, total + 1))[:per_wl_cap]
         jobs.append((wl, wp, None, full))
         for n in pts:
             jobs.append((wl, wp, n, None))
@@ -205,7 +230,7 @@ def run(ctx):
             raise Undecided("walcollide check did not report: %s %s" % (p2.stdout[-300:], p2.stderr[-300:]))
         val = "all" if m.group(1) == "0" else "missing:" + m.group(1)
         bulk_wl = {"id": 9000, "cfg": {"sync": True, "memsize": 80 << 20}, "mode": "plain", "keys": ["bulk"], "ops": "90000 x Set(1 KiB) then crash with a sealed unflushed memtable"}
-        bulk_pt = {"n": "bulk", "crashed": True, "events": [{"e": "Accept", "w": [{"k": "bulk", "v": "all"}]}, {"e": "Ack", "ok": True}, {"e": "Crash", "at": "exit after wal.Sync"}],
+        bulk_pt = {"n": "bulk", "crashed": True, "events": [{"e": "Accept", "i": 0, "w": [{"k": "bulk", "v": "all"}]}, {"e": "Ack", "i": 0, "ok": True}, {"e": "Crash", "at": "exit after wal.Sync"}],
                    "rec": {"open": True, "dump1": {"bulk": val}}}
         results.append((bulk_wl, bulk_pt))
         traces.append(to_trace(pid, bulk_wl, bulk_pt))
